@@ -350,6 +350,9 @@ static std::string falsify(World &W, const ProofSpec &ps, Statement &st, int64_t
 				case 7: // a component of an output card replaced by its negative p - x: order 2q, outside the group,
 				case 8: // while its q-th power relations to the rest of the statement survive with probability 1/4
 				{
+					// (variant 2 of the shuffle argument calls GrothVSSHE directly: membership of the ciphertexts is a
+					// precondition of that class, checked by the TMCG_VerifyStackEquality_* wrappers)
+					if (ps.kind == K_GROTH && ps.variant == 2) return "";
 					VTMF_Card c = st.sout[i]; mpz_ptr x = ((sub % 9) == 7) ? c.c_2 : c.c_1;
 					mpz_sub(x, W.P[0].vtmf->p, x);
 					for (size_t q = 0; q < n; q++) t.push(q == i ? c : st.sout[q]);
@@ -476,8 +479,9 @@ static void do_proof(World &W, const ProofSpec &ps_in, const Fault &f, bool chun
 			// the rounds with bit 0 - glued secret from the unchanged input stack - still fit and the rounds
 			// with bit 1 do not; if the verifier's input stack was edited it is the other way round)
 			std::vector<int> bits = challenge_bits(o);
-			int good_bit = ((f.a % 7) == 4) ? 1 : 0;
+			int good_bit = ((f.a % 9) == 4) ? 1 : 0;
 			bool all_good = (bits.size() == W.kappa);
+			if ((f.a % 9) >= 7) all_good = false; // a component outside the group is refused before the first round
 			for (size_t i = 0; i < bits.size(); i++) if (bits[i] != good_bit) all_good = false;
 			if (st.sin.size() != st.sout.size()) all_good = false; // refused before the first round
 			if ((o.vret == 1) != all_good)
@@ -960,8 +964,10 @@ static RunResult cards_execute(const Plan &plan)
 					if (m.ss[(i + m.offset) % n].first != i)
 					{ W.violate("C02", "rotation_offset_wrong", "rotation secret does not shift by the reported offset " + std::to_string(m.offset)); break; }
 			if (!W.res.ok()) break;
+			// the output object is sometimes one that was used before and still holds other (and more) cards
+			if ((op.arg(1) + (int64_t)oi) % 3 == 0 && !W.stacks.empty()) { const StackRec &old = W.stacks[(size_t)(op.arg(1) + 1) % W.stacks.size()]; m.out = old.s; for (size_t q = 0; q < 2 && q < old.s.size(); q++) m.out.push(old.s[q]); W.res.cnt["probe.mix_into_used_stack"]++; }
 			W.P[j].tmcg->TMCG_MixStack(m.in, m.out, m.ss, W.P[j].vtmf.get(), W.tap);
-			if (m.out.size() != n) { W.violate("C02", "mix_changes_size", "mixed stack has another size"); break; }
+			if (m.out.size() != n) { W.violate("C02", "mix_changes_size", "mixed stack has another size (" + std::to_string(m.out.size()) + " instead of " + std::to_string(n) + ")"); break; }
 			if (lie && cyclic)
 			{
 				// (judged on the ciphertexts: permuting identical cards - an open stack has them - can equal a
